@@ -65,7 +65,12 @@ async def verbatim(n):
             cmd = ["printf", "'%s|%s|'", '"${SF_V-UNSET}"', '"${SF_W-UNSET}"', "&&", "pwd"]
             want = f"{env['SF_V']}|{env['SF_W']}|{wd}".strip()
             for name, c, loc in (("fresh process", local, lloc), ("persistent shell", conn, bloc)):
-                out = await asyncio.wait_for(c.run(location=loc, command=cmd, environment=env, workdir=wd, capture_output=True, timeout=20), 30)
+                try:
+                    out = await asyncio.wait_for(c.run(location=loc, command=cmd, environment=env, workdir=wd, capture_output=True, timeout=20), 30)
+                except asyncio.TimeoutError:
+                    raise
+                except Exception as e:  # noqa
+                    out = (f"the connector raised {type(e).__name__}: {e}", -1)
                 if out is None or out[1] != 0 or out[0] != want:
                     return {"failure": "environment value / working directory did not reach the command verbatim", "via": name, "environment": env, "workdir": wd,
                             "got": out, "expected": want}
